@@ -236,10 +236,13 @@ def run_one(case, rcsec, tf=1.5, eig=True):
     return out
 
 
-def sections(lib, linsolve, ipadd, method="NR", tds_tol="1e-8"):
+def sections(lib, linsolve, ipadd, method="NR", tds_tol="1e-8", tstep=None):
     base = dict(sparselib=lib, linsolve=linsolve)
-    return {"System": dict(ipadd=ipadd), "PFlow": dict(base, method=method, tol="1e-10", report=0),
-            "TDS": dict(base, tol=tds_tol, no_tqdm=1, criteria=0), "EIG": dict(base)}
+    out = {"System": dict(ipadd=ipadd), "PFlow": dict(base, method=method, tol="1e-10", report=0),
+           "TDS": dict(base, tol=tds_tol, no_tqdm=1, criteria=0), "EIG": dict(base)}
+    if tstep is not None:
+        out["TDS"]["tstep"] = repr(tstep)
+    return out
 
 
 def run_routine(spec, res):
@@ -250,6 +253,7 @@ def run_routine(spec, res):
         # make sure every library appears
         combos = [combos[i] for i in keep] + [("umfpack", 0, 1, "NR"), ("spsolve", 0, 1, "NR")]
     ref = None
+    disc_est = [None]
     tds_tol = "1e-8"
     # a stiff disturbance may not converge at the tightened tolerance: fall back once for the whole case
     try:
@@ -306,9 +310,19 @@ def run_routine(spec, res):
                 span = float(np.max(np.abs(r["x"] - r["x"][0])) + 1e-9)
                 de = float(np.max(np.abs(o["x"][-1] - r["x"][-1]))) / span
                 res.maxobs("max_endstate_rel_difference_diverged_axes", de)
-                if de > 1e-2:
-                    res.violate("trajectory_differs", "%s: end state under %s differs from %s by %.2e of the excursion" % (
-                        spec["case"], tag, t0, de), tag=tag)
+                # different step sequences differ by their discretisation errors: the yardstick is the reference configuration's
+                # own discretisation estimate (same back-end, half the step), not a fixed percentage
+                if disc_est[0] is None:
+                    try:
+                        half = run_one(spec["case"], sections(*combos[0][:3], combos[0][3], tds_tol=tds_tol, tstep=(1 / 30) / 2), eig=False)
+                        disc_est[0] = float(np.max(np.abs(half["x"][-1] - r["x"][-1]))) / span if half.get("tds") and half["t"][-1] == r["t"][-1] else float("nan")
+                    except Exception:
+                        disc_est[0] = float("nan")
+                    res.maxobs("max_discretisation_estimate_rel", disc_est[0] if np.isfinite(disc_est[0]) else 0.0)
+                lim = 1e-3 + 3.0 * disc_est[0] if np.isfinite(disc_est[0]) else 1e-2
+                if de > lim:
+                    res.violate("trajectory_differs", "%s: end state under %s differs from %s by %.2e of the excursion (the reference's own "
+                                "discretisation estimate is %.2e; limit %.2e)" % (spec["case"], tag, t0, de, disc_est[0], lim), tag=tag)
         if "mu" in o and "mu" in r:
             if len(o["mu"]) != len(r["mu"]):
                 res.violate("spectrum_differs", "%s: %d vs %d eigenvalues (%s vs %s)" % (spec["case"], len(o["mu"]), len(r["mu"]), tag, t0))
